@@ -23,7 +23,8 @@ NUMPY_NS = NumpyNS()
 
 def spellings_of(op):
     out = ["numpoly"]
-    if op.name in ("getitem", "ravel", "flatten", "T", "flat", "iter", "copy"):
+    if op.name in ("getitem", "ravel", "flatten", "T", "flat", "iter", "copy", "add.reduce",
+                   "multiply.reduce", "add.accumulate"):
         return ["method"]
     if op.name in ("full", "ones", "zeros"):  # no polynomial argument numpy could dispatch on
         return ["numpoly"]
